@@ -35,7 +35,8 @@ THEOREMS = [
 ]
 BUILDS = {"quick": ["py"], "thorough": ["py", "cy"]}
 RULE = ("real asynq programs: 1-3 @deduplicate() functions (function / method on 1-3 instances / staticmethod; generated "
-        "signatures with defaults, keyword-only, *args, **kwargs), scripted bodies (0-3 yields on a harness batch, inside "
+        "signatures with defaults, keyword-only, *args, **kwargs; argument values from small ints, the hash-colliding ints -1/-2 and "
+        "hash-colliding objects), scripted bodies (0-3 yields on a harness batch, inside "
         "calls, dirty, private-task await / sync evaluation, throw()-resumption, return / raise) and 1-4 concurrent actor "
         "tasks of 1-4 phases issuing calls/dirty() with random spellings of few logical calls (so keys collide) on 1-3 "
         "threads; plus a fixed corpus of the named schedules (same yield, later step while blocked, between two flushes, "
@@ -51,7 +52,9 @@ TRUSTED = [
     "the scheduler itself (when bodies start / resume / complete is an input of the model here; C01-C08 cover it)",
 ]
 ASSUMPTIONS = [
-    "argument values are hashable atoms with identity-like equality (small ints, instances); no argument is itself a "
+    "argument values are hashable atoms compared by ==; the model's key equality is equality of value TOKENS, so two "
+    "distinct values whose hashes collide (-1 / -2, objects with a constant __hash__) are two different tokens and are "
+    "generated on purpose; equal values of different types (1 == 1.0 == True) are one value; no argument is itself a "
     "(name, value) tuple that could imitate a **kwargs entry of the key",
     "functions stay alive while their tasks are in flight (id(self.fn) is not reused); asyncio mode is C15's",
     "decorated functions are generator functions (binding errors surface at .asynq() time)",
@@ -82,7 +85,13 @@ def gen_sig(rng, kind):
             "varargs": rng.random() < 0.2, "varkw": rng.random() < 0.2}
 
 
-def logical_calls(rng, decl, ninst, n=2):
+# value tokens: 0..3 small ints; 50 / 51 = the ints -1 / -2 (DISTINCT values, hash(-1) == hash(-2) in CPython);
+# 60 / 61 = two instances of a harness class with a constant __hash__ and identity __eq__; >= 100 = receiver instances.
+# In the Lean model a key compares by value token, i.e. colliding-hash values are simply two different tokens.
+DOMAINS = [[0, 1], [0, 1], [0, 1], [0, 1], [50, 51], [60, 61], [0, 50, 51], [1, 60, 61], [50, 51, 60, 61]]
+
+
+def logical_calls(rng, decl, ninst, n=2, dom=(0, 1)):
     """a few logical calls (values of the named parameters, rest, extra) of one function"""
     res = []
     for _ in range(n):
@@ -93,14 +102,14 @@ def logical_calls(rng, decl, ninst, n=2):
             elif d is not None and rng.random() < 0.5:
                 vals[nm] = d
             else:
-                vals[nm] = rng.randint(0, 1)
+                vals[nm] = rng.choice(dom)
         for nm, d in decl["kwonly"]:
-            vals[nm] = d if (d is not None and rng.random() < 0.5) else rng.randint(0, 1)
-        rest = [rng.randint(0, 1) for _ in range(rng.choice([0, 0, 1, 2]))] if decl["varargs"] else []
+            vals[nm] = d if (d is not None and rng.random() < 0.5) else rng.choice(dom)
+        rest = [rng.choice(dom) for _ in range(rng.choice([0, 0, 1, 2]))] if decl["varargs"] else []
         extra = {}
         if decl["varkw"] and rng.random() < 0.5:
             for nm in rng.sample([6, 7], rng.randint(1, 2)):
-                extra[nm] = rng.randint(0, 1)
+                extra[nm] = rng.choice(dom)
         res.append({"vals": vals, "rest": rest, "extra": extra})
     return res
 
@@ -189,7 +198,8 @@ def gen_case(rng):
     fns = [gen_sig(rng, rng.choice(["func", "func", "method", "method", "static"])) for _ in range(nf)]
     if nf >= 2 and rng.random() < 0.4:
         fns[1] = dict(fns[0])  # two functions with the same signature (same args, different function)
-    lcs = [logical_calls(rng, d, ninst, rng.choice([1, 2, 2, 3])) for d in fns]
+    dom = rng.choice(DOMAINS)
+    lcs = [logical_calls(rng, d, ninst, rng.choice([1, 2, 2, 3]) + (1 if len(dom) > 2 else 0), dom) for d in fns]
 
     def calls(p_mal=0.06):
         fi = rng.randrange(nf)
@@ -316,6 +326,18 @@ def named_schedules():
     cases.append({"fns": [va], "ninst": 1, "bodies": [one_item], "actors": [[{"acts": [
         ["call", 0, "none", [1, 2], [], 0], ["call", 0, "none", [1], [[1, 2]], 0],
         ["call", 0, "none", [1, 2], [[1, 1]], 0]], "wait": "mine"}]]})
+    # DISTINCT argument values whose hashes collide (-1/-2, constant-__hash__ objects): in flight together in the
+    # same yield, in a later step while the first is blocked, and dirty() of the colliding twin must not evict
+    f1 = {"kind": "func", "pos": [[0, None], [1, 0]], "kwonly": [], "varargs": False, "varkw": False}
+    for a, b in ((50, 51), (60, 61)):
+        ca, cb, ckw = ["call", 0, "none", [a], [], 0], ["call", 0, "none", [b], [], 0], ["call", 0, "none", [], [[0, a]], 0]
+        cases.append({"fns": [f1], "ninst": 1, "bodies": [two_items],
+                      "actors": [[{"acts": [ca, cb, ckw], "wait": "mine"}]]})
+        cases.append({"fns": [f1], "ninst": 1, "bodies": [two_items], "actors": [
+            [{"acts": [ca], "wait": "mine"}],
+            [{"acts": [], "wait": "tick"}, {"acts": [cb, ["dirty", 0, "none", [b], [], 0], ckw, cb], "wait": "mine"}]]})
+        cases.append({"fns": [f1], "ninst": 1, "bodies": [one_item], "actors": [
+            [{"acts": [ca, ["dirty", 0, "none", [b], [], 0], ckw], "wait": "mine"}, {"acts": [cb, ca], "wait": "mine"}]]})
     return json.loads(json.dumps(cases))
 
 
@@ -515,14 +537,32 @@ def run_case(case):
     insts = [C() for _ in range(max(1, ninst))]
     inst_tok = {id(o): 100 + i for i, o in enumerate(insts)}
 
+    class Coll(object):
+        """distinct objects (identity __eq__) whose hashes all collide"""
+        __slots__ = ()
+
+        def __hash__(self):
+            return 12345
+
+    special = {50: -1, 51: -2, 60: Coll(), 61: Coll()}
+    special_tok = {id(o): t for t, o in special.items() if t >= 60}
+
     def val(x):
         if isinstance(x, int) and x >= 100:
             return insts[(x - 100) % len(insts)]
+        if x in special:
+            if x >= 50:
+                feat("arg-colliding-hash")
+            return special[x]
         return x
 
     def vtok(x):
         if isinstance(x, bool) or not isinstance(x, int):
-            return inst_tok.get(id(x), UNKNOWN)
+            return inst_tok.get(id(x), special_tok.get(id(x), UNKNOWN))
+        if x == -1:
+            return 50
+        if x == -2:
+            return 51
         return x
 
     def target(fi, recv):
